@@ -175,6 +175,11 @@ def make_operand(rng, cur):
     if kind == 'ndarray':
         arr = gen.values(rng, shp, kind=rng.choice(['nice', 'gauss', 'int']))
         sign = '-' if np.any(np.asarray(arr) < 0) else '+'
+        if rng.random() < 0.2:
+            # arrays of unsigned integers (counts): -arr would wrap around
+            arr = np.asarray(np.abs(np.rint(np.asarray(arr)))
+                             % 200, dtype=rng.choice(['u1', 'u2', 'u4']))
+            return arr, kind, '+'
         return np.asarray(arr, dtype=float), kind, sign
     if kind == 'ndarray_bc':
         if not shp:
